@@ -9,6 +9,7 @@ import (
 	"strings"
 	"testing"
 
+	"github.com/couchbase/go-blip"
 	"github.com/couchbase/sync_gateway/base"
 	"github.com/couchbase/sync_gateway/verifshim/vreport"
 	"github.com/couchbase/sync_gateway/verifshim/vstate"
@@ -18,11 +19,25 @@ import (
 // E2 over the real Checkpointer: events expect / already-known / processed / tick. A tick calls the real
 // _updateCheckpointLists under the lock (its result is exactly what CheckpointNow persists) and, like
 // _setCheckpoints, records it as lastCheckpointSeq.
+// Announcements inside one batch may reach the checkpointer in either order (expect2 / expect2r; a pull batch is a
+// Go map). "cancel" cancels the replicator context the checkpointer watches; the model keeps recording what the
+// replicator requested and received, because a persisted checkpoint must not pass a requested-but-unreceived change
+// whether or not the checkpointer listened. In mode pull-handler the announcements are made by the real
+// blipHandler.handleChanges on a real collection (wanted = revision unknown locally, known = revision present), bound
+// to the checkpointer exactly as ActiveReplicator's pull does, optionally with a tick between its two callbacks.
 
 type c17Event struct {
-	Op string `json:"op"` // expect1, expect2, known, proc, tick
+	Op string `json:"op"` // expect1, expect2, expect2r, known, proc, tick, cancel, batch
 	K  int    `json:"k,omitempty"`
+	// batch only: Shape over the next entries (W wanted, K known), Mid = a tick runs between the handler's two callbacks
+	Shape string `json:"shape,omitempty"`
+	Mid   bool   `json:"mid,omitempty"`
 }
+
+// shared by every pull-handler instance of a worker: a real collection holding doc0..doc7 at one revision each
+var c17Coll *DatabaseCollectionWithUser
+var c17Ctx context.Context
+var c17Revs []string
 
 type c17Config struct {
 	Universe  string `json:"universe"`
@@ -46,15 +61,18 @@ type c17Inst struct {
 	processed []bool // model: per universe index, processed or already-known
 	last      *SequenceID
 	ticks     int
+	cancel    context.CancelFunc
+	cancelled bool
 }
 
 func c17New(cfg c17Config) *c17Inst {
 	uni := c17Universes[cfg.Universe]
+	cctx, cancel := context.WithCancel(context.Background())
 	c := &Checkpointer{
 		expectedSeqs:                   make([]SequenceID, 0),
 		processedSeqs:                  make(map[SequenceID]struct{}),
 		idAndRevLookup:                 make(map[IDAndRev]SequenceID),
-		ctx:                            context.Background(),
+		ctx:                            cctx,
 		expectedSeqCompactionThreshold: cfg.Threshold,
 		stats: CheckpointerStats{
 			ExpectedSequenceLen:             &base.SgwIntStat{},
@@ -63,18 +81,35 @@ func c17New(cfg c17Config) *c17Inst {
 			ProcessedSequenceLenPostCleanup: &base.SgwIntStat{},
 		},
 	}
-	return &c17Inst{cfg: cfg, uni: uni, c: c, processed: make([]bool, len(uni))}
+	return &c17Inst{cfg: cfg, uni: uni, c: c, processed: make([]bool, len(uni)), cancel: cancel}
 }
 
-func (in *c17Inst) Close() {}
+func (in *c17Inst) Close() { in.cancel() }
 
 func (in *c17Inst) Enabled() []c17Event {
 	var ev []c17Event
-	if in.announced < len(in.uni) {
-		ev = append(ev, c17Event{Op: "expect1"}, c17Event{Op: "known"})
+	if in.cfg.Mode == "pull-handler" {
+		if in.announced < len(in.uni) {
+			ev = append(ev, c17Event{Op: "batch", Shape: "W"}, c17Event{Op: "batch", Shape: "K"})
+		}
+		if in.announced+1 < len(in.uni) {
+			for _, sh := range []string{"WK", "KW", "KK"} { // at most one wanted entry per batch: the handler's map then has one order
+				ev = append(ev, c17Event{Op: "batch", Shape: sh})
+			}
+			for _, sh := range []string{"WK", "KW"} {
+				ev = append(ev, c17Event{Op: "batch", Shape: sh, Mid: true})
+			}
+		}
+	} else {
+		if in.announced < len(in.uni) {
+			ev = append(ev, c17Event{Op: "expect1"}, c17Event{Op: "known"})
+		}
+		if in.announced+1 < len(in.uni) {
+			ev = append(ev, c17Event{Op: "expect2"}, c17Event{Op: "expect2r"})
+		}
 	}
-	if in.announced+1 < len(in.uni) {
-		ev = append(ev, c17Event{Op: "expect2"})
+	if !in.cancelled {
+		ev = append(ev, c17Event{Op: "cancel"})
 	}
 	for i := 0; i < in.announced; i++ {
 		if !in.processed[i] {
@@ -87,26 +122,135 @@ func (in *c17Inst) Enabled() []c17Event {
 
 func c17IDRev(i int) IDAndRev { return IDAndRev{DocID: fmt.Sprintf("doc%d", i), RevID: "1-a"} }
 
-func (in *c17Inst) expect(n int) {
+// expect announces the next n entries of one batch; the order in which they reach the checkpointer is the harness's
+// choice (a pull batch is a map, so either order is a legal execution of AddExpectedSeqIDAndRevs)
+func (in *c17Inst) expect(n int, reversed bool) {
+	idxs := make([]int, 0, n)
+	for i := in.announced; i < in.announced+n; i++ {
+		idxs = append(idxs, i)
+	}
+	if reversed {
+		for l, r := 0, len(idxs)-1; l < r; l, r = l+1, r-1 {
+			idxs[l], idxs[r] = idxs[r], idxs[l]
+		}
+	}
 	switch in.cfg.Mode {
 	case "push":
-		in.c.AddExpectedSeqs(in.uni[in.announced : in.announced+n]...)
-	default:
-		m := map[IDAndRev]SequenceID{}
-		for i := in.announced; i < in.announced+n; i++ {
-			m[c17IDRev(i)] = in.uni[i]
+		seqs := make([]SequenceID, 0, n)
+		for _, i := range idxs {
+			seqs = append(seqs, in.uni[i])
 		}
-		in.c.AddExpectedSeqIDAndRevs(m)
+		in.c.AddExpectedSeqs(seqs...)
+	default:
+		for _, i := range idxs {
+			in.c.AddExpectedSeqIDAndRevs(map[IDAndRev]SequenceID{c17IDRev(i): in.uni[i]})
+		}
 	}
 	in.announced += n
+}
+
+// tick is what CheckpointNow persists; returns the violations it shows
+func (in *c17Inst) tick() map[string]string {
+	in.ticks++
+	in.c.lock.Lock()
+	s := in.c._updateCheckpointLists()
+	if s != nil {
+		in.c.lastCheckpointSeq = *s // what _setCheckpoints does after persisting
+	}
+	in.c.lock.Unlock()
+	if s == nil {
+		return nil
+	}
+	viol := map[string]string{}
+	for i := 0; i < in.announced; i++ {
+		e2 := in.uni[i]
+		if (e2.Before(*s) || e2 == *s) && !in.processed[i] {
+			viol[fmt.Sprintf("C17/%s/checkpoint-ahead-of-unprocessed", in.cfg.Mode)] = fmt.Sprintf(
+				"tick persisted checkpoint %s although expected change %s (universe %s index %d) is neither processed nor already known; threshold=%d cancelled=%v",
+				s.String(), e2.String(), in.cfg.Universe, i, in.cfg.Threshold, in.cancelled)
+		}
+	}
+	if in.last != nil && s.Before(*in.last) {
+		viol[fmt.Sprintf("C17/%s/checkpoint-moved-backwards", in.cfg.Mode)] = fmt.Sprintf("checkpoint %s persisted after %s (universe %s, threshold %d)", s.String(), in.last.String(), in.cfg.Universe, in.cfg.Threshold)
+	}
+	announcedSet := false
+	for i := 0; i < in.announced; i++ {
+		if in.uni[i] == *s {
+			announcedSet = true
+		}
+	}
+	if !announcedSet {
+		viol[fmt.Sprintf("C17/%s/checkpoint-not-an-announced-position", in.cfg.Mode)] = fmt.Sprintf("checkpoint %s was never announced (universe %s)", s.String(), in.cfg.Universe)
+	}
+	cp := *s
+	in.last = &cp
+	if len(viol) == 0 {
+		return nil
+	}
+	return viol
+}
+
+// batch delivers one changes message to the real handler
+func (in *c17Inst) batch(shape string, mid bool) map[string]string {
+	var rows []string
+	start := in.announced
+	for j, ch := range shape {
+		i := start + j
+		rev := "9-ffffffffffffffffffffffffffffffff"
+		if ch == 'K' {
+			rev = c17Revs[i]
+			in.processed[i] = true
+		}
+		rows = append(rows, fmt.Sprintf(`[%q,"doc%d",%q]`, in.uni[i].String(), i, rev))
+	}
+	in.announced += len(shape) // the peer has announced the whole message; wanted entries are requested by the handler's answer
+	calls := 0
+	var viol map[string]string
+	between := func() {
+		calls++
+		if mid && calls == 1 {
+			viol = in.tick()
+		}
+	}
+	bh := &blipHandler{
+		BlipSyncContext: &BlipSyncContext{loggingCtx: c17Ctx, replicationStats: NewBlipSyncStats(), activeCBMobileSubprotocol: CBMobileReplicationV3},
+		collection:      c17Coll,
+		loggingCtx:      c17Ctx,
+		collectionCtx: &blipSyncCollectionContext{
+			// bound as in ActivePullReplicator (active_replicator_pull.go)
+			sgr2PullAddExpectedSeqsCallback: func(m map[IDAndRev]SequenceID) {
+				in.c.AddExpectedSeqIDAndRevs(m)
+				between()
+			},
+			sgr2PullAlreadyKnownSeqsCallback: func(s ...SequenceID) {
+				in.c.AddAlreadyKnownSeq(s...)
+				between()
+			},
+		},
+	}
+	rq := blip.NewParsedIncomingMessage(nil, blip.RequestType, blip.Properties{ChangesMessageIgnoreNoConflicts: trueProperty}, []byte("["+strings.Join(rows, ",")+"]"))
+	if err := bh.handleChanges(rq); err != nil {
+		return map[string]string{"C17/pull-handler/handler-error": err.Error()}
+	}
+	if calls != 2 {
+		return map[string]string{"C17/pull-handler/handler-callbacks": fmt.Sprintf("handleChanges made %d checkpointer callbacks, 2 expected", calls)}
+	}
+	return viol
 }
 
 func (in *c17Inst) Apply(e c17Event) map[string]string {
 	switch e.Op {
 	case "expect1":
-		in.expect(1)
+		in.expect(1, false)
 	case "expect2":
-		in.expect(2)
+		in.expect(2, false)
+	case "expect2r":
+		in.expect(2, true)
+	case "cancel":
+		in.cancel()
+		in.cancelled = true
+	case "batch":
+		return in.batch(e.Shape, e.Mid)
 	case "known":
 		in.c.AddAlreadyKnownSeq(in.uni[in.announced])
 		in.processed[in.announced] = true
@@ -118,55 +262,21 @@ func (in *c17Inst) Apply(e c17Event) map[string]string {
 			in.c.AddProcessedSeq(s)
 		case "pull-lookup":
 			in.c.AddProcessedSeqIDAndRev(nil, c17IDRev(e.K))
+		case "pull-handler":
+			in.c.AddProcessedSeqIDAndRev(nil, IDAndRev{DocID: fmt.Sprintf("doc%d", e.K), RevID: "9-ffffffffffffffffffffffffffffffff"})
 		default:
 			in.c.AddProcessedSeqIDAndRev(&s, c17IDRev(e.K))
 		}
 		in.processed[e.K] = true
 	case "tick":
-		in.ticks++
-		in.c.lock.Lock()
-		s := in.c._updateCheckpointLists()
-		if s != nil {
-			in.c.lastCheckpointSeq = *s // what _setCheckpoints does after persisting
-		}
-		in.c.lock.Unlock()
-		if s == nil {
-			return nil
-		}
-		viol := map[string]string{}
-		for i := 0; i < in.announced; i++ {
-			e2 := in.uni[i]
-			if (e2.Before(*s) || e2 == *s) && !in.processed[i] {
-				viol[fmt.Sprintf("C17/%s/checkpoint-ahead-of-unprocessed", in.cfg.Mode)] = fmt.Sprintf(
-					"tick persisted checkpoint %s although expected change %s (universe %s index %d) is neither processed nor already known; threshold=%d",
-					s.String(), e2.String(), in.cfg.Universe, i, in.cfg.Threshold)
-			}
-		}
-		if in.last != nil && s.Before(*in.last) {
-			viol[fmt.Sprintf("C17/%s/checkpoint-moved-backwards", in.cfg.Mode)] = fmt.Sprintf("checkpoint %s persisted after %s (universe %s, threshold %d)", s.String(), in.last.String(), in.cfg.Universe, in.cfg.Threshold)
-		}
-		announcedSet := false
-		for i := 0; i < in.announced; i++ {
-			if in.uni[i] == *s {
-				announcedSet = true
-			}
-		}
-		if !announcedSet {
-			viol[fmt.Sprintf("C17/%s/checkpoint-not-an-announced-position", in.cfg.Mode)] = fmt.Sprintf("checkpoint %s was never announced (universe %s)", s.String(), in.cfg.Universe)
-		}
-		cp := *s
-		in.last = &cp
-		if len(viol) == 0 {
-			return nil
-		}
-		return viol
+		return in.tick()
 	}
 	return nil
 }
 
 func (in *c17Inst) Canon() string {
 	var b strings.Builder
-	fmt.Fprintf(&b, "a%d|", in.announced)
+	fmt.Fprintf(&b, "a%d|c%v|", in.announced, in.cancelled)
 	for _, p := range in.processed {
 		if p {
 			b.WriteByte('1')
@@ -178,7 +288,8 @@ func (in *c17Inst) Canon() string {
 	for _, s := range in.c.expectedSeqs {
 		exp = append(exp, fmt.Sprintf("%d.%d.%d", s.LowSeq, s.TriggeredBy, s.Seq))
 	}
-	sort.Strings(exp)
+	// expectedSeqs in its actual order: the code sorts before every use, so order-merged states would have equal
+	// futures on the unchanged tree, but keeping the order costs little and does not rely on that
 	proc := make([]string, 0, len(in.c.processedSeqs))
 	for s := range in.c.processedSeqs {
 		proc = append(proc, fmt.Sprintf("%d.%d.%d", s.LowSeq, s.TriggeredBy, s.Seq))
@@ -206,7 +317,7 @@ func TestVerifC17(t *testing.T) {
 	r := vreport.Begin("C17")
 	defer r.Finish(t)
 	r.Rule("explicit-state BFS to fixpoint over the real Checkpointer for every (universe, mode, compaction threshold); state = canonical(model announced/processed, real expectedSeqs, processedSeqs, idAndRevLookup, last checkpoint); every transition is a real method call; non-trivial = distinct canonical state")
-	r.Assume("changes are announced in feed order (ascending under SequenceID.Before) and each announced id is distinct; processed/known notifications may arrive in any order")
+	r.Assume("batches are announced in feed order (ascending under SequenceID.Before), entries inside a batch in either order, each announced id distinct; processed/known notifications may arrive in any order; a tick is atomic with respect to the callbacks (each holds the checkpointer lock throughout)")
 
 	mk := func(cfg c17Config) vstate.Config[c17Event] {
 		return vstate.Config[c17Event]{
@@ -216,6 +327,20 @@ func TestVerifC17(t *testing.T) {
 			Replay: func(name string, hist []c17Event) any {
 				return c17Replay{Cfg: cfg, Hist: hist}
 			},
+		}
+	}
+	{
+		database, ctx := setupTestDB(t)
+		defer database.Close(ctx)
+		c17Coll, c17Ctx = GetSingleDatabaseCollectionWithUser(ctx, t, database)
+		c17Ctx = c17Coll.AddCollectionContext(c17Ctx)
+		c17Revs = nil
+		for i := 0; i < 8; i++ {
+			rev, _, err := c17Coll.Put(c17Ctx, fmt.Sprintf("doc%d", i), Body{"k": i})
+			if err != nil {
+				t.Fatalf("put: %v", err)
+			}
+			c17Revs = append(c17Revs, rev)
 		}
 	}
 	var rc c17Replay
@@ -229,7 +354,7 @@ func TestVerifC17(t *testing.T) {
 	}
 	idx := 0
 	for _, u := range universes {
-		for _, mode := range []string{"push", "pull-lookup", "pull-seq"} {
+		for _, mode := range []string{"push", "pull-lookup", "pull-seq", "pull-handler"} {
 			for _, th := range []int{100, 1, 2, 0} {
 				idx++
 				if !r.Mine(idx) {
